@@ -171,6 +171,54 @@ def gen_for(stream, seed):
     return scen.gen_scenario(seed, stream)
 
 
+def exhaustive_scenarios(pid):
+    """finite sub-spaces enumerated completely in the thorough tier (fixed 2x2x1 table, default psi model):
+    C09 / C10: every (type, curve, occurrence, duration, tau) with horizon 14;
+    C11: every ordered pair of event types x relative timing x duration x tau, on overlapping industries."""
+    from harness import corpus
+    out = []
+    tb = corpus.base_table(m=2, n=2, k=1, seed=7, scale=1000.0)
+    cfg = corpus.base_cfg(main_inv_dur=5)
+    regs, secs, cats = scen.labels(tb)
+
+    def mk(kind, occ, dur, tau, curve="linear", ind=("rA", "agri"), frac=0.08):
+        if kind == "rebuild":
+            return corpus.reb_event(tb, cfg, inds=(ind,), frac=frac, occ=occ, dur=dur, tau=tau, sectors={"build": 1.0})
+        if kind == "recovery":
+            return corpus.rec_event(tb, cfg, inds=(ind,), frac=frac, occ=occ, dur=dur, tau=tau, curve=curve)
+        return corpus.arb_event(inds=(ind,), loss=0.3, occ=occ, dur=dur, tau=tau, curve=curve)
+
+    if pid in ("C09", "C10"):
+        kinds = [("recovery", c) for c in ("linear", "convexe", "convexe noscale", "concave")] + [("arbitrary", "linear"), ("arbitrary", "convexe"), ("rebuild", "linear")]
+        i = 0
+        for kind, curve in kinds:
+            for occ in (1, 2, 3):
+                for dur in (1, 2, 4):
+                    for tau in (1, 2, 3, 5):
+                        sc = corpus.mk_sc(tb, cfg, [mk(kind, occ, dur, tau, curve)], T=14)
+                        sc["seed"] = 900000 + i
+                        sc["stream"] = "exhaustive-schedules"
+                        out.append(sc)
+                        i += 1
+    if pid == "C11":
+        i = 0
+        kinds = ["rebuild", "recovery", "arbitrary"]
+        for k1 in kinds:
+            for k2 in kinds:
+                for off in (0, 1, 3):
+                    for dur in (1, 3):
+                        for tau in (1, 3):
+                            for same in (True, False):
+                                e1 = mk(k1, 2, dur, tau)
+                                e2 = mk(k2, 2 + off, 1, 2, ind=("rA", "agri") if same else ("rB", "build"), frac=0.05)
+                                sc = corpus.mk_sc(tb, cfg, [e1, e2], T=16)
+                                sc["seed"] = 910000 + i
+                                sc["stream"] = "exhaustive-pairs"
+                                out.append(sc)
+                                i += 1
+    return out
+
+
 def explore(pid, tier, seed, replay=None):
     if pid in ("C12", "C15", "C16", "C17"):
         from harness import special
@@ -210,6 +258,11 @@ def explore(pid, tier, seed, replay=None):
             for i in range(count):
                 scenarios.append(gen_for(stream, seed * 1000003 + idx * 7919 + i))
             idx += 1
+        if tier == "thorough":
+            ex = exhaustive_scenarios(pid)
+            scenarios.extend(ex)
+            if ex:
+                res["exhaustive_subspaces"] = [f"{ex[0]['stream']}: {len(ex)} scenarios enumerated completely"]
     dr = Driver()
     stats = corr.Stats()
     C = corr.Corr(dr, stats)
